@@ -314,7 +314,7 @@ def build(tier, work, builder):
     tail = X.Slice("TypeChecker::visitFunction (tail: changes / depends)", tsrc, s0, vf.end - 1)
     X.lower_local_lambdas(tail)
     X.lower_range_for(tail, "variable_t")
-    tail.sub("L15:auto it = begin()", r"auto it = (\w+)\.begin\(\)", r"verif_symset_it it = \1.begin()")
+    tail.sub("L15:auto it = begin()", r"auto (\w+) = ([\w.]+)\.(begin|find)\(", r"verif_symset_it \1 = \2.\3(")
     tail.sub("L17:std::set<symbol_t>->bitmask", r"std::set<symbol_t>", "verif_symset")
     tail.sub("glue:std::next(it)", r"std::next\(it\)", "verif_next(it)")
     X.lower_ternary_assign(tail)
